@@ -9,7 +9,7 @@ Import ListNotations.
 Open Scope R_scope.
 
 Definition c0 : config RN :=
-  mkConfig RN STDP Cumulative 1 1 (-1/4) 20 15 0 0 0 0 0 true (Some (INR 2 * 1)) RMean.
+  mkConfig RN STDP Cumulative 1 1 (-1/4) 20 15 0 0 0 0 0 true (Some (INR 2 * 1)) RMean None.
 Definition h0 : list (bool * bool) := [(true, false); (false, true); (true, true); (false, true)].
 
 Theorem nonvacuous :
@@ -20,7 +20,7 @@ Theorem nonvacuous :
   0 < weight_change c0 1 (nosig h0).
 Proof.
   assert (G : grid_ok c0 1).
-  { split; [cbn; lra|]. right. exists 2%nat. split; [reflexivity|lia]. }
+  { split; [reflexivity|]. split; [cbn; lra|]. right. exists 2%nat. split; [reflexivity|lia]. }
   assert (E1 : spike_times (pre_train c0 1 h0) = [1; 3]%nat) by (vm_compute; reflexivity).
   assert (E2 : spike_times (post_train h0) = [1; 2; 3]%nat) by (vm_compute; reflexivity).
   split; [exact G|]. split; [reflexivity|]. split; [reflexivity|]. split; [exact E1|]. split; [exact E2|].
